@@ -1189,7 +1189,10 @@ func runH2History(t *testing.T, vt *vhT, seed int64, nOps int) {
 			vt.Obs("ok")
 		}
 		h.cpool = []*net.UDPAddr{{IP: net.ParseIP("10.0.0.2").To4(), Port: 4000}, {IP: net.ParseIP("10.0.0.2").To4(), Port: 4001},
-			{IP: net.ParseIP("10.0.0.3").To4(), Port: 4000}, {IP: net.ParseIP("fd00::2"), Port: 4000}, {IP: net.ParseIP("fd00::3"), Port: 4000}}
+			{IP: net.ParseIP("10.0.0.3").To4(), Port: 4000}, {IP: net.ParseIP("fd00::2"), Port: 4000}, {IP: net.ParseIP("fd00::3"), Port: 4000},
+			// the IPv6 address whose first four bytes are 10.0.0.2 and whose other bytes are zero, same port: a key built from
+			// the unpadded IPv4 bytes would take it for the IPv4 client (both reach a listener bound to the wildcard address)
+			{IP: net.ParseIP("a00:2::"), Port: 4000}}
 		h.peers = []*net.UDPAddr{{IP: net.ParseIP("10.0.0.9").To4(), Port: 9000}, {IP: net.ParseIP("10.0.0.9").To4(), Port: 9001},
 			{IP: net.ParseIP("10.0.0.8").To4(), Port: 9000}, {IP: net.ParseIP("10.9.9.9").To4(), Port: 9000}, {IP: net.ParseIP("fd00::9"), Port: 9000},
 			{IP: net.ParseIP("fd00::9"), Port: 9001}, {IP: net.ParseIP("fd00::8"), Port: 9000}}
